@@ -25,7 +25,7 @@ CLAIMS = {
               "without_file); the run exits 0/1 exactly when every file is contained, i.e. language detection succeeds and no rule raises a "
               "non-Unicode ValueError (exit_ok_iff_contained, lintFile_ok_iff); an empty failure log is equivalent to every rule having "
               "returned normally on every file it ran on (empty_log_iff_healthy); parallel mode reports the same on contained files "
-              "(parallel_matches_sequential); language detection is the one step outside the per-rule isolation (detection_is_not_isolated). "
+              "(parallel_matches_sequential) and does not depend on the workers' completion order (parallel_order_independent); language detection is the one step outside the per-rule isolation (detection_is_not_isolated). "
               "Tied to /repo by fuzzing with the guarded failure tap H1: 27 kinds of offending file (raw damage, grammar-aware mutations, "
               "nesting / length blow-up, odd languages, every line-prefix of a valid file) among healthy files, two of 16 linter commands per "
               "case as subprocesses with a time limit; exit code, timeouts, the tap's log and the siblings' findings are judged against the "
@@ -41,7 +41,8 @@ CLAIMS = {
         text=("Kernel-checked theorems about the coordinate arithmetic every violation goes through, for every text over any alphabet with a "
               "newline symbol (bytes or code points; with or without final newline; any line endings) and every offset: a node that starts on "
               "a character is published with 1 <= line <= number of lines and a column that indexes exactly that character in that line "
-              "(reported_valid, point_char, point_row_lt), offsets and positions determine each other (offset_of_point); and about DRY's "
+              "(reported_valid, point_char, point_row_lt), offsets and positions determine each other (offset_of_point), splitting into lines "
+              "loses nothing (join_split, split_lines_clean, split_length); and about DRY's "
               "original-line tracking for every normaliser/filter and window size: tracked numbers are valid, strictly increasing and survive "
               "the filter (tokenize_valid, tokenize_increasing), every window runs from the original number of its first kept line to that of its "
               "last and carries exactly those lines (windows_spec, dry_start_is_first_kept_line). Tied to /repo by linting generated py/ts/rs "
@@ -60,7 +61,9 @@ CLAIMS = {
               "text, edit position, stateful normaliser and window size: inserting a line the tokenizer drops moves every tracked line below "
               "it by one and changes nothing else (tokenize_insert), so DRY sees the same snippets with shifted ends (dry_windows_insert, "
               "windows_renumber); count_loc is blind to inserted blank/comment lines, trailing white space, CR line ends and re-indentation "
-              "(countLoc_insert, countLoc_layout with strip_trailing_ws / strip_leading_ws, blank_is_not_code); the old line's text is found at "
+              "(countLoc_insert, countLoc_layout with strip_trailing_ws / strip_leading_ws, blank_is_not_code); normalize_line is blind to "
+              "trailing white space and indentation, and blank or comment-only lines are noise wherever indented (normalize_trailing_ws, "
+              "normalize_leading_ws, blank_is_noise, comment_is_noise); the old line's text is found at "
               "its shifted position and several insertions move a line by the number inserted at or above it (insertAt_get, shiftMany_ge). "
               "Two genuine defects repaired (TypeScript class size counted raw lines; a BOM broke every Python rule). Tied to /repo by a "
               "metamorphic run: generated py/ts/rs projects are linted with 15 commands before and after random sequences of meaning-preserving "
@@ -141,7 +144,8 @@ CLAIMS = {
               "command-line options and languages: the configuration in effect is the deciding carrier's document (--config, .thailint.yaml, "
               ".thailint.json, pyproject.toml) and the run exits 2 exactly when a consulted file is unparsable or --config is missing "
               "(load_meets_spec, exit2_iff_broken), every carrier gives the same configuration (carrier_independent), hyphen and underscore "
-              "spellings are interchangeable (spelling_independent, section_found_either_spelling), a command-line threshold beats the file "
+              "spellings are interchangeable and normalising is stable (spelling_independent, section_found_either_spelling, "
+              "normalize_idempotent), a command-line threshold beats the file "
               "including every per-language override (cli_wins), overrides apply option by option (override_order), non-positive limits and "
               "unparsable files exit 2 (invalid_limit_exit2, unparsable_exit2), the ignore list counts from every carrier, and the three "
               "threshold shapes are monotone as sub-lists (upper/lower_limit_monotone, allow_list_monotone). Thirteen genuine defects repaired, "
@@ -238,7 +242,8 @@ CLAIMS = {
               "loops, closures, blocks, lets, enclosing calls, macro arguments) and call sites, for every option setting: test code is "
               "recognised exactly under any nesting and with comments between attribute and item (test_context_exact, on attributes proved "
               "plain by alphabet_plain), unwrap / clone / blocking verdicts equal the property's reading (unwrap_exact, clone_exact, "
-              "blocking_exact with wrapper_exact, *_reported_iff, classify_priority), every visible call is judged exactly once "
+              "blocking_exact with wrapper_exact, *_reported_iff, classify_priority), a short path whose first segment is imported from another "
+              "crate is never reported (shadowed_never_reported), every visible call is judged exactly once "
               "(exactly_once, scan_eq_sites), detect_* switches remove exactly their category (clone_switch, blocking_switch), "
               "allow_in_tests=false makes attributes irrelevant, blocking API tables regenerated from /repo classify the documented calls. "
               "scan_meets_spec_partial: full agreement with the specification on files without calls inside macro arguments; those are the "
@@ -284,8 +289,8 @@ CLAIMS = {
         text=("Kernel-checked theorems about (I) the init-config merge at text level, for every existing text, template and YAML parser (the "
               "parser is a parameter): a written result parses and keeps every pre-existing top-level setting (written_keeps_settings), the old "
               "text is kept in order with one insertion (merge_keeps_text), added sections never shadow a user section under hyphen/underscore "
-              "normalisation and settings stay in effect (added_do_not_shadow, settings_stay_in_effect), a second run finds nothing missing "
-              "(second_run_complete, complete_means_untouched), and the shipped template regenerated from /repo yields all 16 linter sections, "
+              "normalisation and settings stay in effect (added_do_not_shadow, settings_stay_in_effect), a second run finds nothing missing and writes nothing "
+              "(second_run_complete, complete_means_untouched, second_run_is_noop), and the shipped template regenerated from /repo yields all 16 linter sections, "
               "each defining exactly its own top-level key (template_sections, by kernel evaluation of the model on the 442 template lines); "
               "(II) the config set/get/reset state machine over the file on disk: a rejected value leaves the file unchanged, every accepted "
               "value is returned by get after the save/load round trip for any key spelling, other keys are undisturbed, acceptance equals the "
@@ -343,7 +348,7 @@ def main():
     (VERIF / "MANIFEST.json").write_text(json.dumps(m, indent=1) + "\n")
 
 
-HOOK_COMMITS: list = ["28cf2a1"]
+HOOK_COMMITS: list = ["28cf2a1edd7dbacd06827b4466c71d0ab54ca81b"]
 NA: dict = {}
 
 if __name__ == "__main__":
